@@ -8,7 +8,7 @@
    ChaCha8 output and crypto/rand - trusted base), see c09_distinct and c09_orbit. *)
 From Coq Require Import ZArith List Bool.
 From KV.Base Require Import Consts Word.
-From KV.Frame Require Import Wire Frame WireProofs FrameProofs FecProofs SizeProofs FrameExamples.
+From KV.Frame Require Import Wire Frame WireProofs FrameProofs FecProofs SizeProofs FrameExamples Entropy EntropyProofs.
 Import ListNotations.
 Local Open Scope Z_scope.
 
@@ -302,3 +302,61 @@ Example c09_orbit_example :
   (forall x y, negb x = negb y -> x = y) /\ Nat.iter 1 negb true = Nat.iter 3 negb true /\
   Nat.iter (3 - 1) negb true = true.
 Proof. exact ex_orbit. Qed.
+
+(* ---- entropy.go, rngAES as a state machine (Entropy.v; run against the real generator by the
+        harness): block function E and crypto/rand (fresh) arbitrary.
+        In every reachable state 0 <= count <= reseedInterval and the current key has produced at
+        most reseedInterval + 1 outputs, whatever buffer lengths the callers pass *)
+Theorem c09_rng_key_exposure :
+  forall (key : Type) (E : key -> list Z -> list Z) (fresh : nat -> key * list Z) (ns : list Z) (r : rng key),
+    rng_inv key r ->
+    rng_inv key (fst (rng_reads key E fresh ns r)) /\
+    r_used (fst (rng_reads key E fresh ns r)) <= c_reseedInterval + 1.
+Proof. exact (fun key E fresh ns r H => conj (reads_inv key E fresh ns r H) (used_bounded key E fresh ns r H)). Qed.
+Print Assumptions c09_rng_key_exposure.
+
+(* crypto/rand is consulted exactly when the counter has reached reseedInterval *)
+Theorem c09_rng_reseed_exact :
+  forall (key : Type) (fresh : nat -> key * list Z) (r : rng key),
+    rng_inv key r ->
+    (r_count r = c_reseedInterval ->
+       update_seed key fresh r = mkRng (S (r_epoch r)) (fst (fresh (r_epoch r))) (snd (fresh (r_epoch r))) 0 0) /\
+    (r_count r <> c_reseedInterval ->
+       update_seed key fresh r = mkRng (r_epoch r) (r_key r) (r_seed r) (r_count r + 1) (r_used r)).
+Proof. exact update_reseed_iff. Qed.
+Print Assumptions c09_rng_reseed_exact.
+
+(* inside a key epoch the i-th Read returns a prefix of E_key^(i+1)(seed) *)
+Theorem c09_rng_epoch_orbit :
+  forall (key : Type) (E : key -> list Z -> list Z) (fresh : nat -> key * list Z) (ns : list Z) (r : rng key),
+    Forall (fun n => 0 < n) ns ->
+    0 <= r_count r -> r_count r + Z.of_nat (length ns) <= c_reseedInterval ->
+    fst (rng_reads key E fresh ns r) =
+      mkRng (r_epoch r) (r_key r) (Nat.iter (length ns) (E (r_key r)) (r_seed r))
+            (r_count r + Z.of_nat (length ns)) (r_used r + Z.of_nat (length ns)) /\
+    forall i, nth_error (snd (rng_reads key E fresh ns r)) i =
+              option_map (fun n => firstn (Z.to_nat n) (Nat.iter (S i) (E (r_key r)) (r_seed r))) (nth_error ns i).
+Proof. exact reads_epoch. Qed.
+Print Assumptions c09_rng_epoch_orbit.
+
+(* hence the 16-byte nonces drawn under one key are pairwise distinct as long as the seed orbit of
+   the (injective) block function has not closed - the only way rngAES can repeat a nonce within
+   an epoch.  12-byte AEAD nonces are prefixes of these blocks: no such statement holds for them. *)
+Theorem c09_rng_epoch_nonces_distinct :
+  forall (key : Type) (E : key -> list Z -> list Z) (fresh : nat -> key * list Z) (ns : list Z) (r : rng key),
+    (forall k s, length (E k s) = 16%nat) ->
+    (forall x y, E (r_key r) x = E (r_key r) y -> x = y) ->
+    Forall (fun n => 16 <= n) ns ->
+    0 <= r_count r -> r_count r + Z.of_nat (length ns) <= c_reseedInterval ->
+    (forall k, (0 < k < S (length ns))%nat -> Nat.iter k (E (r_key r)) (r_seed r) <> r_seed r) ->
+    NoDup (snd (rng_reads key E fresh ns r)).
+Proof. exact epoch_nonces_distinct. Qed.
+Print Assumptions c09_rng_epoch_nonces_distinct.
+
+Example c09_rng_example :
+  rng_inv Z ex_rng /\
+  (let '(r, outs) := rng_reads Z toy_E ex_fresh [16; 12; 16; 0; 16] ex_rng in
+   r_epoch r = 1%nat /\ r_key r = 100 /\ r_count r = 1 /\ r_used r = 2 /\ NoDup outs /\
+   nth 1 outs [] = firstn 12 (toy_E 7 (toy_E 7 (r_seed ex_rng))) /\
+   nth 2 outs [] = toy_E 100 (repeat 0 16)).
+Proof. exact ex_rng_run. Qed.
